@@ -273,7 +273,23 @@ impl Emit {
                 if has_r || has_w {
                     self.n_tuple += 1;
                     if self.n_tuple % 3 == 0 {
-                        let name = if has_w { ["Read", "ReadExpect"][self.n_tuple / 3 % 2] } else { ["Write", "WriteExpect", "PhantomData"][self.n_tuple / 3 % 3] };
+                        // ... or like `Option`-something although nothing about it is optional
+                        if self.n_tuple / 3 % 4 == 3 {
+                            // ... or, at the top level, like `Option`-something although nothing about
+                            // it is optional
+                            let name = format!(
+                                "{}{}",
+                                ["OptionalParts", "Options", "OptionData"][self.n_tuple / 12 % 3],
+                                self.n_tuple
+                            );
+                            self.defs.push_str(&format!("pub type {}<'a> = {};\n", name, plain));
+                            return format!("{}<'a>", name);
+                        }
+                        let name = if has_w {
+                            ["Read", "ReadExpect"][self.n_tuple / 3 % 2]
+                        } else {
+                            ["Write", "WriteExpect", "PhantomData"][self.n_tuple / 3 % 3]
+                        };
                         let module = format!("lk{}", self.n_tuple);
                         // the body lives outside the module, where the names still mean the library's types
                         self.defs.push_str(&format!(
